@@ -54,6 +54,8 @@ structure BeatStep (caps : Caps) (aw : Nat) (r : Req) (eb : Nat) (k : Nat) : Pro
   next_more : k < r.len → ∀ v, (v || !(k == 0)) = true →
                 b2bNext caps aw (expState eb r k) ⟨v, r, true⟩ = expState eb r (k + 1)
   fits : -4096 < specOff eb r k ∧ specOff eb r k < 4096
+  addr_exact : (r.addr % numBytes r.size = 0 ∨ eb = BURST_FIXED) →
+           beatAddr aw r (expState eb r k) = axiSpecAddr r.addr r.len r.size eb k
 
 theorem specOff_incr (r : Req) (k : Nat) : specOff BURST_INCR r k = (k : Int) * ((2 ^ r.size : Nat) : Int) := by
   unfold specOff; rw [if_pos rfl]
@@ -78,12 +80,12 @@ theorem beat_step (caps : Caps) (aw : Nat) (haw : 12 ≤ aw) (r : Req) (k : Nat)
     rw [heb] at hrest ⊢
     rw [if_pos rfl] at hrest
     unfold alignedAddr numBytes at hrest
-    obtain ⟨f0, f1, f2, f3, f4, f5⟩ := incr_facts r.addr r.len r.size k Q hS hA hrest hk
+    obtain ⟨f0, f1, f2, f3, f4, f5, f6⟩ := incr_facts r.addr r.len r.size k Q hS hA hrest hk
     have hnn : 0 ≤ (k : Int) * ((2 ^ r.size : Nat) : Int) := Int.mul_nonneg (Int.natCast_nonneg _) (Int.natCast_nonneg _)
     have hba : beatAddr aw r (expState BURST_INCR r k) = ((r.addr : Int) + (k : Int) * ((2 ^ r.size : Nat) : Int)).toNat := by
       have e : (expState BURST_INCR r k).offset = (k : Int) * ((2 ^ r.size : Nat) : Int) := specOff_incr r k
       rw [beatAddr_eq (by rw [e]; exact f0) (by rw [e, hQ]; exact f1), e]
-    refine ⟨?_, ?_, ?_, ?_⟩
+    refine ⟨?_, ?_, ?_, ?_, ?_⟩
     · rw [hba, numBytes, f2]
       unfold axiSpecAddr alignedAddr numBytes
       rw [if_pos rfl]
@@ -101,6 +103,12 @@ theorem beat_step (caps : Caps) (aw : Nat) (haw : 12 ≤ aw) (r : Req) (k : Nat)
       push_cast
       rw [Int.add_mul]; omega
     · rw [specOff_incr]; omega
+    · intro hal
+      rcases hal with hal | hal
+      · rw [hba, f6 hal]
+        unfold axiSpecAddr alignedAddr numBytes
+        rw [if_pos rfl]
+      · exact absurd hal (by decide)
   · -- WRAP
     rw [heb] at hrest ⊢
     rw [if_neg (by decide), if_pos rfl] at hrest
@@ -119,8 +127,10 @@ theorem beat_step (caps : Caps) (aw : Nat) (haw : 12 ≤ aw) (r : Req) (k : Nat)
       unfold wrapHit
       rw [hba, beatWrap, f4, beq_iff_eq]
       exact wrap_detect_len hL _ _
-    refine ⟨?_, ?_, ?_, ⟨f5, f6⟩⟩
-    · rw [hba, numBytes, f2]
+    refine ⟨?_, ?_, ?_, ⟨f5, f6⟩, ?_⟩
+    rotate_left 3
+    · intro _; rw [hba, f2]
+    · rw [hba, f2]
     · intro hkl v hv
       have hn := nextCore_eq (incrOrWrap caps r) (r.burst == BURST_WRAP && caps.wrap) aw k (specOff BURST_WRAP r k) r v hv
       unfold b2bNext
@@ -157,7 +167,7 @@ theorem beat_step (caps : Caps) (aw : Nat) (haw : 12 ≤ aw) (r : Req) (k : Nat)
       have e : (expState BURST_FIXED r k).offset = 0 := specOff_fixed r k
       rw [beatAddr_eq (by rw [e]; omega) (by rw [e, hQ]; omega), e]
       simp
-    refine ⟨?_, ?_, ?_, ?_⟩
+    refine ⟨?_, ?_, ?_, ?_, ?_⟩
     · rw [hba]; unfold axiSpecAddr; rw [if_neg (by decide), if_neg (by decide)]
     · intro hkl v hv
       unfold b2bNext expState
@@ -169,5 +179,6 @@ theorem beat_step (caps : Caps) (aw : Nat) (haw : 12 ≤ aw) (r : Req) (k : Nat)
       rw [nextCore_eq _ _ _ _ _ _ _ hv, hw, hio, if_neg hne, hk256 hkl, if_neg (by simp), if_neg hne, if_neg (by simp),
         specOff_fixed, specOff_fixed]
     · rw [specOff_fixed]; omega
+    · intro _; rw [hba]; unfold axiSpecAddr; rw [if_neg (by decide), if_neg (by decide)]
 
 end Litex.Axi
